@@ -26,15 +26,14 @@ class HistoryProfile(Profile):
     r = g.rng.random()
     if st.get("pending"):
       return st["pending"].pop(0)
-    if r < cfg["p_undo"] and sim.ptr > sim.base:
-      if g.rng.random() < self.p_redo_after_undo:
-        st.setdefault("pending", []).append({"k": "redo"})
-      return {"k": "undo"}
-    r -= cfg["p_undo"]
-    if r < cfg["p_restart"]:
+    if r < cfg["p_undo"]:
+      if sim.ptr > sim.base:
+        if g.rng.random() < self.p_redo_after_undo:
+          st.setdefault("pending", []).append({"k": "redo"})
+        return {"k": "undo"}
+    elif r < cfg["p_undo"] + cfg["p_restart"]:
       return {"k": "restart", "mode": g.rng.choice(self.restart_modes)}
-    r -= cfg["p_restart"]
-    if r < cfg["p_tick"]:
+    elif r < cfg["p_undo"] + cfg["p_restart"] + cfg["p_tick"]:
       return {"k": "tick", "dt": g.rng.choice([1, 60, 86400]), "update": g.rng.random() < 0.5}
     return super(HistoryProfile, self).next_event(sim, g, cfg, st, i)
 
